@@ -190,7 +190,7 @@ def gen_cases(ctx: Ctx, budget: int):
         cases.append(gen_case(r, "simple", bits, gen_range(r)))
     def sar_range(vmax):
         # the SAR converters use only the range maximum; a non-zero minimum must not change anything
-        return (r.choice([0.0, 0.0, 0.0, -1.0, 0.25, -vmax / 2, vmax / 4]), vmax)
+        return (r.choice([v for v in (0.0, 0.0, 0.0, -1.0, 0.25, -vmax / 2, vmax / 4) if v < vmax]), vmax)
 
     for bits in range(4, 65):
         cases.append(gen_case(r, "sar", bits, sar_range(r.choice([1.0, 8.0, 3.3, 5.0, 10.0, r.uniform(0.1, 20)]))))
@@ -229,6 +229,21 @@ def exhaustive_cases(ctx: Ctx, max_bits: int):
 KIND = {"simple": "Simple", "sar": "Sar", "sar0": "Sar0", "sarp": "Sarp"}
 CASE_KEYS = ("kind", "bits", "vmin", "vmax", "xs", "path", "frame", "data_type", "n_strengths", "n_noises",
              "strengths", "noises", "zs")
+
+
+def top_class(c):
+    """What the plain formula gives at the range maximum (input-distribution statistic only): exactly full scale,
+    one short (the saturation override is needed), above full scale or +inf (the clamp is needed)."""
+    M = 2 ** c["bits"] - 1
+    vmin, vmax = float.fromhex(c["vmin"]), float.fromhex(c["vmax"])
+    try:
+        out = (vmax - vmin) * float(M) / (vmax - vmin)
+    except (OverflowError, ZeroDivisionError):
+        return "overflow"
+    if math.isinf(out) or math.isnan(out):
+        return "overflow"
+    t = int(out)
+    return "exact" if t == M else "short" if t < M else "exceeds"
 
 
 def perturbations(c):
@@ -360,6 +375,8 @@ def correspondence(ctx: Ctx, cases, tag="c") -> tuple[list, list]:
         ctx.dist("path", c.get("path"))
         ctx.dist("frame", c.get("frame", "float64"))
         ctx.dist("data_type", c.get("data_type"))
+        if c["kind"] == "simple":
+            ctx.dist("unclamped_value_at_vmax", top_class(c))
         if c["kind"] == "sar0" and c.get("path") == "model":
             ctx.dist("noisy_tuple_lengths", "wrong" if (c.get("n_strengths", c["bits"]) != c["bits"]
                                                         or c.get("n_noises", c["bits"]) != c["bits"]) else "right")
@@ -452,7 +469,7 @@ def search(ctx: Ctx):
     for bits in range(4, 65):
         for _ in range(3):
             kind = r.choice(["simple", "simple", "sar", "sar0", "sarp"])
-            rv = gen_range(r) if kind == "simple" else (r.choice([0.0, 0.0, -1.0, 0.25]), r.uniform(0.3, 50.0))
+            rv = gen_range(r) if kind == "simple" else (r.choice([0.0, 0.0, -1.0, 0.25]), r.uniform(0.3, 50.0))  # vmin < vmax
             cases.append(gen_case(r, kind, bits, rv, dense=True))
     cases += exhaustive_cases(ctx, 8)
     mism, viol, pairs = correspondence(ctx, cases, tag="s")
